@@ -39,11 +39,11 @@ func expectDeltas(prop string, c *chainkit.Chain, pre map[util.Uint160]int64, wa
 func TestC19Main(t *testing.T) {
 	theT = t
 	col := ev.New("C19", "main",
-		"rapid state machine on the main-chain NeoFS+Processing contracts (with Notary: Alphabet = chain committee of 1 or 4 keys; without Notary: 1..4 stored keys): GAS deposits with amounts {-1,0,1,random,9000 GAS-1,9000 GAS,9000 GAS+1} and data {nil, empty, 20 bytes, 19, 21, the 2-byte ignore marker, 2 other bytes, an integer}; direct onNEP17Payment calls and payments in a foreign token; withdraw 0..9001 with/without the user's witness under changing WithdrawFee (without Notary also by a user that is itself a stored Alphabet key, at any position); cheque by the Alphabet / by others (Notary mode) and approved by single votes of the stored keys in generated order (without Notary: paid exactly by the vote completing 2k/3+1, with another ballot pending, with a vote sent again afterwards); candidate registration under changing fee; per transaction the exact GAS deltas of all parties (fees isolated on a separate payer), the Deposit/Withdraw/Cheque notifications and after every step contract balance = received - cheques; non-trivial = history with an accepted deposit, a refused deposit at a boundary and a withdraw or cheque",
+		"rapid state machine on the main-chain NeoFS+Processing contracts (with Notary: Alphabet = chain committee of 1, 3, 4 or 6 keys - with 3 and 6 the committee-majority account differs from the Alphabet account and is one of the refused signers; without Notary: 1..4 stored keys): GAS deposits with amounts {-1,0,1,random,9000 GAS-1,9000 GAS,9000 GAS+1} and data {nil, empty, 20 bytes, 19, 21, the 2-byte ignore marker, 2 other bytes, an integer}; direct onNEP17Payment calls and payments in a foreign token; withdraw 0..9001 with/without the user's witness under changing WithdrawFee (without Notary also by a user that is itself a stored Alphabet key, at any position); cheque by the Alphabet / by others (Notary mode) and approved by single votes of the stored keys in generated order (without Notary: paid exactly by the vote completing 2k/3+1, with another ballot pending, with a vote sent again afterwards); candidate registration under changing fee; per transaction the exact GAS deltas of all parties (fees isolated on a separate payer), the Deposit/Withdraw/Cheque notifications and after every step contract balance = received - cheques; non-trivial = history with an accepted deposit, a refused deposit at a boundary and a withdraw or cheque",
 		"transaction fees are paid by a separate account", "vote collection without Notary is C17; here the non-Notary mode checks the per-key withdraw fee and that a voted cheque is paid exactly once")
 	runRapid(t, col, func(rt *rapid.T, h *ev.History) {
 		notaryDisabled := rapid.IntRange(0, 2).Draw(rt, "noNotary") == 0
-		nChain := rapid.SampledFrom([]int{1, 4}).Draw(rt, "committee")
+		nChain := rapid.SampledFrom([]int{1, 3, 4, 6}).Draw(rt, "committee") // 3 and 6: the majority account is not the Alphabet account
 		k := nChain
 		if notaryDisabled {
 			k = rapid.IntRange(1, 4).Draw(rt, "storedKeys")
@@ -329,7 +329,7 @@ func TestC19Main(t *testing.T) {
 				}
 				bal := w.c.GAS(w.neofs)
 				amount := rapid.SampledFrom([]int64{0, 1, bal / 2, bal, bal + 1}).Draw(rt, "amount")
-				by := rapid.SampledFrom([]string{"alphabet", "alphabet", "alphabet", "user", "majority", "member"}).Draw(rt, "by")
+				by := rapid.SampledFrom([]string{"alphabet", "alphabet", "alphabet", "user", "majority", "majority", "member", "short"}).Draw(rt, "by")
 				var signers []neotest.Signer
 				switch by {
 				case "alphabet":
@@ -338,10 +338,16 @@ func TestC19Main(t *testing.T) {
 					signers = []neotest.Signer{users[0]}
 				case "majority":
 					signers = []neotest.Signer{w.c.Committee}
+				case "short":
+					// one signature short of the Alphabet threshold
+					signers = []neotest.Signer{w.c.MultisigOf(max(chainkit.AlphabetThreshold(w.c.N)-1, 1))}
 				default:
 					signers = []neotest.Signer{w.c.Member(0)}
 				}
-				isAlpha := by == "alphabet" || (by == "majority" && w.c.Committee.ScriptHash() == w.c.Alphabet.ScriptHash())
+				if by == "majority" && w.c.Committee.ScriptHash() != w.c.Alphabet.ScriptHash() {
+					h.Mark("cheque-by-majority-that-is-not-the-alphabet")
+				}
+				isAlpha := by == "alphabet" || (by == "short" && w.c.N == 1) || (by == "majority" && w.c.Committee.ScriptHash() == w.c.Alphabet.ScriptHash())
 				o := w.c.Invoke(signers, w.neofs, "cheque", []byte(fmt.Sprintf("cheque-%d", s)), payee, amount, []byte("lock"))
 				what := fmt.Sprintf("cheque(%d of %d) by %s", amount, bal, by)
 				h.Op("%s -> %s", what, o)
